@@ -20,6 +20,7 @@ ghostfield pp.ggood bool stable
 ghostfield pp.gerr u stable
 -- the funnel all routes share (C16): how many times doPrint/doPrintf/doPrintln ran on this printer since
 -- newPrinter, which of them last (1/2/3), and the identity of the operand list and format handed to it
+ghostfield pp.gdone bool stable
 ghostfield pp.gdp int stable
 ghostfield pp.gdk int stable
 ghostfield pp.gdar int stable
@@ -491,6 +492,7 @@ func (p *pp) unknownType(v reflect.Value)
 
 func (p *pp) badVerb(verb rune)
   public verb
+  ghost p.gdone = true before "p.printValue(p.value, 'v', 0)"
   requires B(p) && WP(p.fmt)
   ensures B(p) && Same(p) && WP(p.fmt)
   ensures KF(p) && KW(p) && p.panicking == old(p.panicking) && !p.erroring
@@ -544,6 +546,7 @@ func (p *pp) fmtString(v string, verb rune)
 
 func (p *pp) fmtBytes(v []byte, verb rune, typeString string)
   public verb, typeString
+  ghost p.gdone = true before "p.printValue(reflect.ValueOf(v), verb, 0)"
   requires B(p) && WP(p.fmt)
   may-panic
   loop 1 invariant !$panic && inv(p.buf) && B(p) && Same(p) && KF(p) && KW(p) && KE(p) && WP(p.fmt) && (old(p.erroring) && verb == 118 ==> p.erroring)
@@ -568,6 +571,8 @@ func (p *pp) fmtPointer(value reflect.Value, verb rune)
 
 /*@
 -- ---------------------------------------------------------------- print.go: dispatch
+
+assume pure func (v reflect.Value) CanInterface() bool
 
 assume pure func (v reflect.Value) String() string
 
@@ -604,6 +609,8 @@ func (p *pp) handleMethods(verb rune) (handled bool)
   ensures [C15] verb == 119 && !old(p.erroring) && !WCapture(p, old(p.arg)) ==> !p.wrapErrs && isnil(p.wrappedErr) && handled
   ensures [C15] verb == 119 && !old(p.erroring) && !old(p.fmt.sharpV) && hasType(old(p.arg), "error") ==> handled
   requires B(p) && WP(p.fmt)
+  -- an operand that is a SafeValue reaches method dispatch only under a context (Safe, or an enclosing Unsafe)
+  requires [C05,C06] hasType(p.arg, "interfaces.SafeValue") ==> p.buf.gctx != 0
   may-panic
   class 2 before "p.fmt.fmtS(stringer.GoString())"
   ensures-always B(p) && Same(p) && WP(p.fmt)
@@ -616,6 +623,7 @@ func (p *pp) handleMethods(verb rune) (handled bool)
 func (p *pp) handleSpecialValues(value reflect.Value, t reflect.Type, verb rune, depth int) (handled bool)
   public verb
   requires B(p) && WP(p.fmt)
+  requires [C05,C08] depth >= 0
   may-panic
   assume [C01] frag(value.String(), len(value.String())) before "p.buf.WriteString(value.String())"
   assume [C01] frag(value.Bytes(), len(value.Bytes())) && ref(value.Bytes()) != ref(p.buf.buf) before "p.buf.Write(value.Bytes())"
@@ -628,6 +636,8 @@ func (p *pp) handleSpecialValues(value reflect.Value, t reflect.Type, verb rune,
 
 func (p *pp) printArg(arg interface{}, verb rune)
   public verb
+  ghost p.gdone = true before "p.printValue(f, verb, 0)"
+  ghost p.gdone = true before "p.printValue(reflect.ValueOf(f), verb, 0)"
   ensures [C15] verb == 119 && !old(p.erroring) && !old(p.fmt.sharpV) ==> (p.wrapErrs && !isnil(p.wrappedErr) && hasType(p.wrappedErr, "error") && old(p.wrapErrs) && isnil(old(p.wrappedErr))) || (!p.wrapErrs && isnil(p.wrappedErr))
   assume [C08] ref(f) != ref(p.buf.buf) before "defer p.startPreRedactable().restore()" #2
   assume [C08] ref(f) != ref(p.buf.buf) before "p.buf.Write([]byte(f))"
@@ -643,6 +653,13 @@ func (p *pp) printArg(arg interface{}, verb rune)
 func (p *pp) printValue(value reflect.Value, verb rune, depth int)
   public verb
   requires B(p) && WP(p.fmt)
+  -- depth 0 means "the special-value and method dispatch for this very value has been done by the caller":
+  -- only the designated call sites (printArg, badVerb, fmtBytes) may say so; the ghost flag is consumed here,
+  -- so a recursive call that forgets the +1 on depth does not have it
+  requires [C05,C08] depth >= 0 && (depth == 0 ==> p.gdone)
+  ghost p.gdone = false at entry
+  -- the safe override for a SafeValue is justified by the value being printed now, not by a leftover operand
+  assert [C02,C05] value.CanInterface() && p.arg == value.Interface() before "defer p.startSafeOverride().restore()" #2
   may-panic
   ghost gm = p.buf.mode before "switch f := value; value.Kind()"
   ghost gov = p.override before "switch f := value; value.Kind()"
